@@ -21,6 +21,7 @@ from vlib.common import Run, Finding, BrokenTie, coq_eval_many, parse_eval, pars
 USERS = ['bob', 'carol']
 F18 = 'F18-track-call-lost-on-finished-worker'
 F18B = 'F18b-worker-survives-server-close-inside-cancel-task'
+F27 = 'F27-flag0-call-treated-as-retry'
 STATE_CODE = {'untracked': 0, 'tracked': 1, 'retry_pending': 2}
 
 
@@ -57,6 +58,7 @@ class Driver:
         self.outs = {u: [] for u in USERS}         # interleaved outputs (code, value) in order
         self.need_snap = []                        # users with an event whose snapshot is still to be taken
         self.in_cancel = {u: False for u in USERS}
+        self.retries = {u: [] for u in USERS}      # every scheduled retry: failure it follows, delay, virtual arm / fire time
         self.attempts = {u: [] for u in USERS}     # (0 AddUser | 1 RemoveUser, sent ok, number of closes seen) at the network boundary
         self.calls = []                            # (user, op, flag, dead_worker_at_call)
         self.closes = 0
@@ -157,7 +159,10 @@ class Driver:
         orig_retry = self.tm._request_retry
 
         async def _request_retry(tu, timeout):
+            rec = drv.retries[tu.user.name][-1] if drv.retries[tu.user.name] else None
             await orig_retry(tu, timeout)
+            if rec is not None:
+                rec['fired_at'] = drv.loop.time()
             drv.log(tu.user.name, 'TimerFires', qadj=-1)
         patch(self.tm, '_request_retry', _request_retry)
 
@@ -168,6 +173,8 @@ class Driver:
         async def _set_tracking_state(tu, state, message=None, retry_timeout=default_retry):
             if state == um.TrackingState.RETRY_PENDING:
                 drv.out(tu.user.name, (3, int(retry_timeout)))
+                ev_ = drv.events[tu.user.name]
+                drv.retries[tu.user.name].append({'after': ev_[-1] if ev_ else None, 'delay': retry_timeout, 'armed_at': drv.loop.time(), 'fired_at': None})
             return await orig_set(tu, state, message=message, retry_timeout=retry_timeout)
         patch(self.tm, '_set_tracking_state', _set_tracking_state)
 
@@ -345,7 +352,7 @@ def run_script(script):
             snap = d.snapshot(u)
             res['users'][u] = {
                 'events': list(d.events[u]), 'snaps': [list(s) for s in d.snaps[u]], 'outs': [list(o) for o in d.outs[u]],
-                'final': list(snap), 'survived_close': d.survived_close[u], 'attempts': [list(a) for a in d.attempts[u]],
+                'final': list(snap), 'survived_close': d.survived_close[u], 'attempts': [list(a) for a in d.attempts[u]], 'retries': list(d.retries[u]),
             }
         res['calls'] = [list(c) for c in d.calls]
         res['closes'] = d.closes
@@ -436,7 +443,11 @@ def monitor(script, tr):
                           {'user': u, 'expected': exp, 'sent': obs}))
                 break
         # (1) every frame is justified by a change of the set (or a retry expiry)
-        if n_add > trans.count('A') + n_timer:
+        n_flag0 = sum(1 for e in evs if e in ('Track 0', 'Untrack 0'))
+        if n_flag0 and trans.count('A') + n_timer < n_add <= trans.count('A') + n_timer + n_flag0:
+            v.append((F27, f'{u}: {n_add} AddUser frames for {trans.count("A")} empty->non-empty changes and {n_timer} retry expiries: '
+                      f'{n_flag0} call(s) with an empty flag set were taken for retry expiries', {'user': u}))
+        elif n_add > trans.count('A') + n_timer:
             v.append(('unjustified-adduser', f'{u}: {n_add} AddUser frames for {trans.count("A")} empty->non-empty changes and {n_timer} retry expiries', {'user': u}))
         if n_rem > trans.count('R'):
             v.append(('unjustified-removeuser', f'{u}: {n_rem} RemoveUser frames for {trans.count("R")} non-empty->empty changes', {'user': u}))
@@ -467,6 +478,16 @@ def monitor(script, tr):
             v.append(('tracked-without-reason-or-confirmation', f'{u}: state TRACKED with reasons {R}, confirmed={confirmed}', {'user': u}))
         if R == 0 and state != 0 and not (present and alive):
             v.append(('state-not-untracked', f'{u}: no reasons but state {state}', {'user': u}))
+        # (5a) a failed attempt is retried after the delay documented for that failure (user/manager.py: 10 s after a network
+        # error or no answer, 600 s when the server says the user does not exist), not earlier
+        for rec in U.get('retries', []):
+            want = 600 if rec['after'] == 'ServerReply RNotExists' else 10 if rec['after'] in ('SendFails', 'ServerReply RSilence') else None
+            if want is None:
+                v.append(('retry-without-failure', f'{u}: a retry was scheduled after {rec["after"]}', {'user': u}))
+            elif rec['delay'] != want:
+                v.append(('retry-delay-not-documented', f'{u}: after {rec["after"]} the retry was scheduled in {rec["delay"]} s, documented: {want} s', {'user': u}))
+            elif rec['fired_at'] is not None and rec['fired_at'] - rec['armed_at'] < want - 1e-6:
+                v.append(('retry-too-early', f'{u}: retry after {rec["after"]} fired {rec["fired_at"] - rec["armed_at"]} s after the failure, documented: {want} s', {'user': u}))
         # (5) retries: documented delays only (10 s network error / no answer, 600 s unknown user), only with a reason
         for (c, val) in U['outs']:
             if c == 3 and val not in (10, 600):
@@ -623,7 +644,7 @@ def run(run: Run):
                     'send failures are injected at Network.send_server_messages (the fake network), not through the transport']
     run.assumptions += ['calls use non-empty flag sets (TrackingFlag(0) is reserved for the retry request)',
                         'event listeners of the tracking events do not suspend']
-    proved = run.prove(['tr_retry'])
+    proved = run.prove(['tr_retry', 'tr_tracking'])
 
     items = []
     meta = []
